@@ -27,8 +27,8 @@ PID = "C07"
 
 def specs(tier, seed):
     out = []
-    seeds = [11, 2**40 + 3] if tier == "quick" else [11, 2**40 + 3, 1000 + seed % 997]
-    n = 4 if tier == "quick" else 8
+    seeds = [11, 2**40 + 3, 1000 + seed % 997] if tier == "quick" else [11, 2**40 + 3, 1000 + seed % 997, 0, 2**64 - 1]
+    n = 6 if tier == "quick" else 10
 
     def add(ens, atoms, table, **kw):
         for s in seeds:
